@@ -42,6 +42,9 @@ type Op struct {
 
 // Case is a history dealt to 1..3 routines plus the schedule.
 type Case struct {
+	// World: "" = a 4-class defclass chain per argument; "builtin" = built-in
+	// types (specializers are type names, arguments are literals)
+	World string `json:"world,omitempty"`
 	Arity int    `json:"arity"`
 	Tasks [][]Op `json:"tasks"`
 	// schedule
@@ -88,12 +91,16 @@ func (e *engine) Meta() harness.Meta {
 
 var quals = []string{"", "", "", "before", "after", "around", "around"}
 
-func genOp(r *tape.Rand, arity int, nextID *int, wDef, wRem, wCall int) Op {
+func genOp(r *tape.Rand, arity int, nextID *int, wDef, wRem, wCall int, builtin bool) Op {
 	x := r.Intn(wDef + wRem + wCall)
+	nSpec, nArg := nClasses, nClasses
+	if builtin {
+		nSpec, nArg = len(builtinSpecs), len(builtinVals)
+	}
 	spec := func() []int {
 		s := make([]int, arity)
 		for i := range s {
-			s[i] = r.Intn(nClasses+1) - 1
+			s[i] = r.Intn(nSpec+1) - 1
 		}
 		return s
 	}
@@ -108,8 +115,8 @@ func genOp(r *tape.Rand, arity int, nextID *int, wDef, wRem, wCall int) Op {
 	}
 	a := make([]int, arity)
 	for i := range a {
-		a[i] = r.Intn(nClasses)
-		if r.Pct(6) {
+		a[i] = r.Intn(nArg)
+		if r.Pct(6) && !builtin {
 			a[i] = nClasses // nil: only a method specialized on t applies
 		}
 	}
@@ -118,7 +125,11 @@ func genOp(r *tape.Rand, arity int, nextID *int, wDef, wRem, wCall int) Op {
 
 func (e *engine) Generate(seed uint64, idx int, tier string, avoid []harness.Finding) json.RawMessage {
 	r := tape.NewRand(tape.Mix(seed, uint64(idx)))
+	builtinOnce.Do(builtinInit)
 	c := Case{Arity: 1 + r.Intn(2), Salt: r.Uint64(), TapeSeed: r.Uint64()}
+	if r.Pct(25) {
+		c.World = "builtin"
+	}
 	ntasks := 1
 	if r.Pct(60) {
 		ntasks = 2 + r.Intn(2)
@@ -136,7 +147,7 @@ func (e *engine) Generate(seed uint64, idx int, tier string, avoid []harness.Fin
 	nextID := 0
 	c.Tasks = make([][]Op, ntasks)
 	for i := 0; i < n; i++ {
-		op := genOp(r, c.Arity, &nextID, wDef, wRem, wCall)
+		op := genOp(r, c.Arity, &nextID, wDef, wRem, wCall, c.World == "builtin")
 		t := r.Intn(ntasks)
 		c.Tasks[t] = append(c.Tasks[t], op)
 	}
@@ -155,6 +166,52 @@ func avoidsTrig(avoid []harness.Finding, t string) bool {
 		}
 	}
 	return false
+}
+
+// ---- the built-in world ----
+
+var builtinVals = []string{`1`, `1.5`, `"s"`, `'sym`, `'(1 2)`, `'(1 . 2)`, `#(1 2)`, `#\a`}
+
+var (
+	builtinOnce  sync.Once
+	builtinCPL   [][]string // class precedence of each value, as the running code reports it
+	builtinSpecs []string   // every class name that occurs, sorted; "t" is not in it (-1 stands for t)
+)
+
+func builtinInit() {
+	seen := map[string]bool{}
+	for _, src := range builtinVals {
+		v := lispsim.Read(src).Eval(slip.NewScope(), nil)
+		var cpl []string
+		if v != nil {
+			for _, h := range v.Hierarchy() {
+				cpl = append(cpl, string(h))
+				if string(h) != "t" {
+					seen[string(h)] = true
+				}
+			}
+		}
+		builtinCPL = append(builtinCPL, cpl)
+	}
+	for k := range seen {
+		builtinSpecs = append(builtinSpecs, k)
+	}
+	sort.Strings(builtinSpecs)
+}
+
+// rankIn is rank() for the built-in world.
+func rankIn(spec, arg int) int {
+	cpl := builtinCPL[arg]
+	name := "t"
+	if spec >= 0 {
+		name = builtinSpecs[spec]
+	}
+	for i, c := range cpl {
+		if c == name {
+			return i
+		}
+	}
+	return -1
 }
 
 // ---- reference dispatcher ----
@@ -236,7 +293,7 @@ type expect struct {
 	noPrimary bool // applicable daemons but no applicable primary: not judged
 }
 
-func dispatch(t table, args []int) expect {
+func dispatch(t table, args []int, builtin bool) expect {
 	type am struct {
 		m     method
 		ranks []int
@@ -246,7 +303,11 @@ func dispatch(t table, args []int) expect {
 		rs := make([]int, len(args))
 		ok := true
 		for i, a := range args {
-			rs[i] = rank(m.specs[i], a)
+			if builtin {
+				rs[i] = rankIn(m.specs[i], a)
+			} else {
+				rs[i] = rank(m.specs[i], a)
+			}
 			if rs[i] < 0 {
 				ok = false
 			}
@@ -321,7 +382,7 @@ type output struct {
 
 // step is the sequential specification used directly (1 routine) and as the
 // porcupine model (several routines).
-func step(state string, in Op, out output) (bool, string, string) {
+func step(state string, in Op, out output, builtin bool) (bool, string, string) {
 	t := parseTable(state)
 	switch in.K {
 	case "def":
@@ -343,7 +404,7 @@ func step(state string, in Op, out output) (bool, string, string) {
 		// removal is a no-op; either way the table is unchanged
 		return true, state, ""
 	}
-	ex := dispatch(t, in.Args)
+	ex := dispatch(t, in.Args, builtin)
 	switch {
 	case ex.noMethod:
 		if out.Cond == "" {
@@ -365,10 +426,11 @@ func step(state string, in Op, out output) (bool, string, string) {
 // ---- execution ----
 
 type world struct {
-	sfx   string
-	scope *slip.Scope
-	gf    string
-	insts []string // variable names holding an instance of class i
+	builtin bool
+	sfx     string
+	scope   *slip.Scope
+	gf      string
+	insts   []string // variable names holding an instance of class i
 }
 
 func className(sfx string, i int) string {
@@ -376,6 +438,16 @@ func className(sfx string, i int) string {
 		return "t"
 	}
 	return fmt.Sprintf("c%d%s", i, sfx)
+}
+
+func (w *world) spec(i int) string {
+	if i < 0 {
+		return "t"
+	}
+	if w.builtin {
+		return builtinSpecs[i]
+	}
+	return className(w.sfx, i)
 }
 
 var warm sync.Once
@@ -446,7 +518,7 @@ func (w *world) source(op Op) string {
 				ll = append(ll, params[i]) // an unspecialized parameter is specialized on t
 				continue
 			}
-			ll = append(ll, fmt.Sprintf("(%s %s)", params[i], className(w.sfx, s)))
+			ll = append(ll, fmt.Sprintf("(%s %s)", params[i], w.spec(s)))
 		}
 		q := ""
 		if op.Qual != "" {
@@ -471,7 +543,7 @@ func (w *world) source(op Op) string {
 	case "rem":
 		var sp []string
 		for _, s := range op.Specs {
-			sp = append(sp, className(w.sfx, s))
+			sp = append(sp, w.spec(s))
 		}
 		q := "()"
 		if op.Qual != "" {
@@ -482,6 +554,10 @@ func (w *world) source(op Op) string {
 	}
 	var as []string
 	for _, a := range op.Args {
+		if w.builtin {
+			as = append(as, builtinVals[a])
+			continue
+		}
 		if a == nClasses {
 			as = append(as, "nil")
 			continue
@@ -520,7 +596,9 @@ func (e *engine) Execute(raw json.RawMessage) (vd harness.Verdict) {
 	vd.Evals = 1
 	vd.Faults = map[string]int{}
 	vd.Probes = map[string]int{}
+	builtinOnce.Do(builtinInit)
 	w := newWorld(c.Arity)
+	w.builtin = c.World == "builtin"
 	// compile every operation before the run
 	codes := make([][]slip.Code, len(c.Tasks))
 	for ti, ops := range c.Tasks {
@@ -611,13 +689,20 @@ func (e *engine) Execute(raw json.RawMessage) (vd harness.Verdict) {
 		qs.Run(func() {
 			id := qs.CurID()
 			var tuples [][]int
+			nArg := nClasses
+			if w.builtin {
+				nArg = len(builtinVals)
+			}
 			if c.Arity == 1 {
-				for a := 0; a < nClasses; a++ {
+				for a := 0; a < nArg; a++ {
 					tuples = append(tuples, []int{a})
 				}
 			} else {
-				for a := 0; a < nClasses; a++ {
-					for b := 0; b < nClasses; b++ {
+				for a := 0; a < nArg; a++ {
+					for b := 0; b < nArg; b++ {
+						if w.builtin && (a+b)%3 != 0 {
+							continue // a third of the 64 pairs is enough
+						}
 						tuples = append(tuples, []int{a, b})
 					}
 				}
@@ -636,7 +721,7 @@ func (e *engine) Execute(raw json.RawMessage) (vd harness.Verdict) {
 		state := ""
 		changed := false
 		for _, r := range append(recs, quiet...) {
-			ok, ns, why := step(state, r.op, r.out)
+			ok, ns, why := step(state, r.op, r.out, c.World == "builtin")
 			if !ok {
 				pin()
 				vd.V = viol("dispatch-differs", "after %s: %s: %s", historyBefore(recs, r), showOp(r.op), why)
@@ -667,7 +752,7 @@ func (e *engine) Execute(raw json.RawMessage) (vd harness.Verdict) {
 		model := porcupine.Model{
 			Init: func() any { return "" },
 			Step: func(state, in, out any) (bool, any) {
-				ok, ns, _ := step(state.(string), in.(Op), out.(output))
+				ok, ns, _ := step(state.(string), in.(Op), out.(output), c.World == "builtin")
 				return ok, ns
 			},
 			Equal: func(a, b any) bool { return a.(string) == b.(string) },
